@@ -268,6 +268,7 @@ def run(ctx):
     f_hist = os.path.join(work, 'exp_hist.ndjson')
     f_wl = os.path.join(work, 'exp_wl.ndjson')
     f_der = os.path.join(work, 'exp_deriv.ndjson')
+    f_heff = os.path.join(work, 'exp_hist_eff.ndjson')
     n2_ft = '4' if quick else '6'
     x0 = 'two' if quick else 'all'
     env_dft = {'C18_KIND': 'dft', 'C18_MAXN1': '6', 'C18_MAXN2': '6', 'C18_X0': 'two'}
@@ -277,7 +278,9 @@ def run(ctx):
         ('export-dft', 'MC_DFTSem.tla', 'MC_DFTSem_export.cfg', dict(env_dft, OUT_FILE=f_dft), 1),
         ('export-ft', 'MC_DFTSem.tla', 'MC_DFTSem_export.cfg', dict(env_ft, OUT_FILE=f_ft), 1),
         ('export-hist+props', 'MC_DFTMachine.tla', 'MC_DFTMachine.cfg',
-         {'C18_HLEN': '3' if quick else '4', 'OUT_FILE': f_hist}, 1),
+         {'C18_HLEN': '3' if quick else '4', 'C18_HSLIM': '0', 'C18_HEFF': '2', 'OUT_FILE': f_hist}, 1),
+        ('export-hist-efforts', 'MC_DFTMachine.tla', 'MC_DFTMachine.cfg',
+         {'C18_HLEN': '3', 'C18_HSLIM': '1', 'C18_HEFF': '2' if quick else '3', 'OUT_FILE': f_heff}, 1),
         ('export-wavelayout', 'MC_WaveLayout.tla', 'MC_WaveLayout_export.cfg', dict(env_wl, OUT_FILE=f_wl), 1),
         ('export-deriv+laws', 'MC_DFTDerive.tla', 'MC_DFTDerive.cfg',
          {'C18_DLEN': '2' if quick else '3', 'OUT_FILE': f_der}, 1),
@@ -323,6 +326,27 @@ def run(ctx):
         step = 40
         for i in range(0, len(app), step):
             tasks.append({'type': 'hist', 'conc': conc, 'behaviours': app[i:i + step], 'seed': seed})
+    # call keywords: planning effort x plan store (fresh / after a call / after init_fftw_plan, also on a kept
+    # inverse) x in-place / out-of-place, FFTW back-end only
+    if 'pyfftw' in impls:
+        need('export-hist-efforts')
+        eff_beh = lines(f_heff)
+        econcs = []
+        for kind in ('dft', 'ft'):
+            for field, hcflag in (('C', False), ('R', True), ('R', False)):
+                for shape, prec in ((((4, 4), 64),) if quick else (((4, 4), 64), ((8,), 64), ((3, 4), 32))):
+                    econcs.append({'kind': kind, 'impl': 'pyfftw', 'field': field, 'hcflag': hcflag,
+                                   'shape': list(shape), 'prec': prec, 'inv_mode': 'cached'})
+        for conc in econcs:
+            for i in range(0, len(eff_beh), 40):
+                tasks.append({'type': 'hist', 'conc': conc, 'behaviours': eff_beh[i:i + 40], 'seed': seed})
+        for shape, axes in (((4,), (0,)), ((3, 4), (0, 1)), ((8,), (0,)), ((4, 4), (1,))):
+            for sign in (-1, 1):
+                for eff in (('estimate', 'measure') if quick else ('estimate', 'measure', 'patient')):
+                    for prec in (64, 32):
+                        for fresh_each in (False, True):
+                            tasks.append({'type': 'pyfftw_alias', 'shape': list(shape), 'axes': list(axes), 'sign': sign,
+                                          'effort': eff, 'prec': prec, 'fresh_each': fresh_each})
     # random longer histories (code -> spec only)
     rnd = random.Random(seed * 101 + 3)
     for conc in concs:
@@ -614,6 +638,8 @@ def task_cost(t):
         return 4 * len(t['behaviours'])
     if t['type'] == 'deriv':
         return 2 * int(np.prod(t['base']['shape']))
+    if t['type'] == 'pyfftw_alias':
+        return int(np.prod(t['shape']))
     if t['type'] == 'gauss':
         return 30
     if t['type'] == 'wave_lay':
@@ -637,6 +663,9 @@ def random_history(rnd, conc, length):
                 acts += [{'op': 'inv', 'x': x, 'o': 'r'}, {'op': 'invip', 'x': x, 'o': 'z'}] * 2
         if conc['impl'] == 'pyfftw':
             acts.append({'op': 'plan', 'x': '-', 'o': '-'})
+            if not conc.get('chain'):      # call keywords only where the exported effort histories run, too
+                acts = [dict(a_, e=rnd.choice(['-', '-', 'estimate', 'measure']))
+                        if a_['op'] != 'plan' or rnd.random() < 0.5 else a_ for a_ in acts]
         if conc['kind'] == 'ft':
             acts.append({'op': 'temps', 'x': '-', 'o': '-'})
         acts.append({'op': 'scribble', 'x': '-', 'o': '-'})
@@ -663,8 +692,10 @@ def outcome_of(ev, clauses, where):
     if ev['k'] == 'hist':
         objs = {b.strip('"') for a, b in names if a == 'hist'}
         act = ev['act']
-        tgt = {'r', 'q'} if act['op'] in ('call', 'inv') else {act['o']}
-        if where['clause'] == 'input-modified' or act['x'] in objs:
+        fresh = act['op'] in ('call', 'inv')          # the result is a new object r, the old r is kept as q
+        tgt = {'r'} if fresh else {act['o']}
+        src = 'q' if (fresh and act['x'] == 'r') else act['x']
+        if where['clause'] == 'input-modified' or src in objs:
             return 'input-modified'
         if objs & tgt:
             return 'wrong-value'
